@@ -80,6 +80,24 @@ def _redirect_waiver(n_other, f1, f2, f3, f4, span_installed, span_fails, is_red
     return verdict is False and reason == 'filters'
 
 
+# ---------------------------------------------------------------- verdicts follow the CURRENT link record (nothing stale)
+def _verdict_tracks_record(t1, t2, maxtries, l1, l2, depth, same_rule):
+    """The same URL is consulted twice with a link record that changed in between (try count after a failed attempt, depth):
+    each verdict must be the reference verdict for the record passed at that moment."""
+    def mk():
+        return FetchRule(url_filter=F.DemuxURLFilter([F.SchemeFilter(), F.RecursiveFilter(True, False), F.TriesFilter(maxtries), F.LevelFilter(depth)]))
+    rule = mk()
+
+    def want(tries, level):
+        return (maxtries == 0 or tries < maxtries) and (depth == 0 or level <= depth)
+    v1 = rule.consult_filters(_UI, make_record(_UI.url, level=l1, try_count=t1))[0]
+    if not same_rule:
+        rule = mk()
+    v2 = rule.consult_filters(_UI, make_record(_UI.url, level=l2, try_count=t2))[0]
+    hit('changed' if want(t1, l1) != want(t2, l2) else 'same')
+    return bool(v1) == want(t1, l1) and bool(v2) == want(t2, l2)
+
+
 # ---------------------------------------------------------------- H4 construction of the filter list from options
 from wpull.application.tasks.rule import URLFiltersSetupTask  # noqa: E402
 
@@ -159,6 +177,12 @@ HARNESSES = [
       need=['waived', 'rejected', 'all-pass'],
       funcs=['wpull/processor/rule.py:FetchRule.consult_filters', 'wpull/processor/rule.py:FetchRule.is_only_span_hosts_failed'],
       doc='consult_filters waives a negative verdict iff is_redirect and the set of failing filters is exactly {SpanHostsFilter}'),
+    H('verdict_tracks_record', '_verdict_tracks_record', 't1: int, t2: int, maxtries: int, l1: int, l2: int, depth: int, same_rule: bool',
+      pre=['t1 >= 0 and t2 >= 0 and maxtries >= 0 and l1 >= 0 and l2 >= 0 and depth >= 0'], timeout={'quick': 120, 'thorough': 300},
+      samples=[(0, 3, 3, 1, 1, 0, True), (2, 2, 3, 1, 5, 3, True)], need=['changed', 'same'],
+      funcs=['wpull/processor/rule.py:FetchRule.consult_filters'],
+      doc='consulting the filters twice for the same URL with a changed link record (try count, depth: unbounded ints) gives, each time, '
+          'the verdict for the record passed then - nothing is remembered from the earlier consultation'),
     H('construction', '_construction',
       'https_only: bool, recursive: bool, preq: bool, follow_ftp: bool, no_parent: bool, domains: bool, xdomains: bool, '
       'hostnames: bool, xhostnames: bool, tries: int, level: int, preq_level: int, acc_re: bool, rej_re: bool, inc_dir: bool, '
